@@ -56,3 +56,53 @@ def assumptions_overwritten(led, rid, ctx):
                   "initialise(assumptions) dominates solve_internal",
                   "solve_internal can run without initialise(assumptions) having stored this call's "
                   "assumptions")
+
+
+def no_fabricated_reason(led, rid, ctx):
+    """WHO-MAY(construct ReasonRef, {ReasonStore::push}) and WHO-MAY(pass `None` as the reason of a
+    domain change, {decisions, assumptions, root posting, variable creation})  (DESIGN §4-C02 U2)"""
+    from ..flow import aggregates, resolver, peel
+    lib = ctx.lib
+    n = 0
+    for f in lib.fns.values():
+        for bb, i, s in aggregates(f, "reason::ReasonRef"):
+            n += 1
+            root = f.parent or f.defn
+            ok = root.endswith("ReasonStore::push") or f.from_expansion
+            led.check(ok, rid, "ReasonRef-constructed:%s" % root, "%s:%d" % (f.file, s["line"]),
+                      "constructed by the reason store",
+                      "a ReasonRef is fabricated in %s instead of being returned by ReasonStore::push: "
+                      "the trail entry would be explained by whatever reason happens to sit at that "
+                      "index" % root)
+    led.floor(rid, "ReasonRef constructions", n, 1)
+    # who may post a domain change without a reason
+    allowed = {
+        "ConstraintSatisfactionSolver::make_next_decision": "decisions and assumptions",
+        "ConstraintSatisfactionSolver::post_predicate": "root-level posting through the API",
+        "Assignments::grow": "initial bounds of a new variable",
+        "Assignments::create_new_integer_variable_sparse": "holes of a new sparse variable",
+        "ConstraintSatisfactionSolver::create_new_integer_variable_sparse": "holes of a new sparse variable",
+        "DebugHelper::debug_reported_propagations_negate_failure_and_check":
+            "debug check working on a clone of the assignments",
+        "DebugHelper::debug_add_predicates_to_assignments":
+            "debug check working on a clone of the assignments",
+    }
+    mutators = ("post_predicate", "tighten_lower_bound", "tighten_upper_bound",
+                "remove_value_from_domain", "make_assignment")
+    m = 0
+    for f in lib.fns.values():
+        R = None
+        for c in f.calls:
+            if c.name not in mutators or not (c.self_ty or "").endswith("Assignments"):
+                continue
+            if R is None:
+                R = resolver(f)
+            last = peel(R.operand(c.args[-1]), calls=None)
+            if last.k == "agg" and last.b == "None":
+                m += 1
+                root = f.parent or f.defn
+                ok = any(root.endswith(a) for a in allowed)
+                led.check(ok, rid, "None-reason:%s" % root, c.span, "allowed: reason-less entries are decisions",
+                          "%s posts a domain change with reason None: conflict analysis would take the "
+                          "propagated entry for a decision" % root)
+    led.count(rid + ":reason-less posts", m)
